@@ -51,7 +51,11 @@ REQUIRED_CLASSES = ['kind:model', 'kind:history', 'kind:reactor',
                     'hist:default_args', 'hist:explicit_species', 'hist:append', 'hist:extend',
                     'hist:remove', 'hist:pop', 'hist:clear', 'hist:new', 'hist:coexisting>=2',
                     'opt:float', 'opt:int', 'opt:np.float64', 'opt:np.int64', 'opt:np.float32',
-                    'opt:str', 'opt:units_given', 'opt:units_omitted', 'phases_arg:omitted',
+                    'opt:str', 'opt:mixlist', 'opt:mixlist_numbers+unit_strings', 'opt:mixlist_python+numpy',
+                    'opt:mixlist_objects', 'rate:Ea<0_adsorption', 'rate:Ea<0_surface', 'rate:Ea=0',
+                    'rate:Ea_tiny', 'rate:A=0', 'rate:beta<0', 'rate:sticking=0', 'rate:sticking=1',
+                    'ids:blocks', 'cti:long_range_list', 'cti:max_line_len',
+                    'opt:units_given', 'opt:units_omitted', 'phases_arg:omitted',
                     'phases_arg:objects']
 REQUIRED_PROBES = ['write_cti', 'write_thermo_yaml', 'write_yaml', 'organize_phases', '_assign_yaml_val',
                    'Nasa.to_cti', 'Nasa.to_omkm_yaml', 'Nasa9.to_omkm_yaml', 'Shomate.to_cti',
@@ -233,6 +237,28 @@ def directed(tier):
                     ('N(S)', 'terrace', 'step', 'add_first', 'pop', 'surface_reactant_computed_A'),
                     ('NH(T)', 'old_InteractingInterface', 'terrace', 'remove_first', 'clear',
                      'surface_reactant_computed_A')], first='yaml'))
+    # user-supplied rate parameters at sign / zero boundaries (negative Ea on adsorption and surface steps)
+    for k, (units, first) in enumerate([(None, 'cti'),
+                                        (dict(G.DEFAULT_UNITS, quantity='mol', energy='kJ', act_energy='kJ/mol'),
+                                         'yaml'),
+                                        (dict(G.DEFAULT_UNITS, quantity='mol', energy='J', act_energy='J/mol',
+                                              length='m'), 'cti')]):
+        m = _base_model(30 + k, first=first, **({'units': units} if units else {}))
+        m['reactions'][0].update(Ea=-0.65, sticking_coeff=1.0)
+        m['reactions'][1].update(Ea=-1e-9, sticking_coeff=0.0)
+        m['reactions'][5].update(Ea=0.0, sticking_coeff=1e-12, beta=-0.5)
+        m['reactions'][4].update(Ea=-14.2, A=0.0, beta=-1)
+        m['reactions'][6].update(Ea=-3.25, A=1e-30, beta=0.0)
+        m['reactions'][3].update(Ea=1e-9)
+        D.append(m)
+    # many id groups with gaps -> long reactions= / interactions= range lists, at several line lengths
+    rngb = random.Random('C07-directed-blocks')
+    for k in range(3):
+        m = G.gen_model(rngb, tier, profile='plain', layout=['g+b+s', 'g+s+s', 'g+b+s+s'][k], n_species=14,
+                        n_reactions=[24, 40, 16][k], ids='blocks', int_names='blocks', n_interactions=[8, 10, 6][k],
+                        populate='construct')
+        m.update(line_lens=[[80, 60, 100], [45, 72, 120], [79, 81, 50]][k], first='cti', to_file=(k == 1))
+        D.append(m)
     # single-phase models
     rng = random.Random('C07-directed-single')
     D.append(G.gen_model(rng, tier, layout='g', n_species=3, populate='construct', yaml_keyword_name=False))
@@ -300,6 +326,20 @@ def directed(tier):
                  'mass_flow_rate': f('float', 0.1), 'step_size': f('float', 1.5),
                  'temperature_mode': f('str', 'Isothermal'), 'pressure_mode': f('str', 'Isobaric')},
                 units=dict(G.DEFAULT_UNITS, length='m', time='min', mass='g', pressure='Pa')))
+    # lists with element-wise mixed forms (numbers + strings with units, Python + NumPy, ids + objects)
+    e = lambda t, v: {'t': t, 'v': v}
+    mix = {'P': f('float', 1.0), 'multi_P': {'t': 'mixlist', 'v': [e('float', 1.5), e('str', '2 atm'),
+                                                                      e('np.float64', 3.0), e('int', 4)]},
+           'T': f('int', 500), 'multi_T': {'t': 'mixlist', 'v': [e('int', 500), e('np.float32', 512.0),
+                                                                   e('float', 600.5), e('np.int64', 700)]},
+           'multi_flow_rate': {'t': 'mixlist', 'v': [e('np.int64', 2), e('str', '3 cm3/s'), e('float', 0.25)]},
+           'reactions_SA': {'t': 'mixlist', 'v': [e('obj:reaction', 'u_0007'), e('str', 'r_0001')]},
+           'species_SA': {'t': 'mixlist', 'v': [e('str', 'H2'), e('obj:species', 'N2(T)')]}}
+    D.append(Rr(dict(mix)))
+    D.append(Rr(dict(mix), units=None))
+    D.append(Rr({'multi_P': {'t': 'mixlist', 'v': [e('str', '2 atm'), e('float', 1.5)]},
+                 'multi_flow_rate': {'t': 'mixlist', 'v': [e('float', 1.0), e('np.float32', 0.5)]}},
+                units=dict(G.DEFAULT_UNITS, length='m', time='min')))
     return D
 
 
@@ -995,6 +1035,40 @@ def _do_cti(spec, M, ctx):
     int_ids = _cti_interactions(spec, ctx, doc)
     bep_ids = _cti_beps(spec, ctx, doc, written_ids)
     _cti_phases(spec, ctx, doc, written_ids, int_ids, bep_ids)
+    _cti_line_lengths(spec, M, ctx, written_ids, int_ids, bep_ids)
+
+
+def _cti_line_lengths(spec, M, ctx, written_ids, int_ids, bep_ids):
+    """the phase directives at other max_line_len values: still valid directives that say the same"""
+    from pmutt import _force_pass_arguments
+    from pmutt.omkm.units import Units
+    for L in spec.get('line_lens') or []:
+        ctx.cls('cti:max_line_len')
+        extra = {'max_line_len': 'custom'}
+        parts = []
+        ok = True
+        for p, ph in zip(spec['phases'], M.phases):
+            m = {'file': 'cti', 'rule': 'Y1', 'entity': 'phase', 'class': p['type'], 'max_line_len': 'custom'}
+            try:
+                parts.append(_force_pass_arguments(ph.to_cti, units=Units(**spec['units']), max_line_len=L))
+            except Exception as e:
+                ctx.fail('Y1', dict(m, exc=type(e).__name__), message=str(e)[:300], L=L)
+                ok = False
+        if not ok:
+            continue
+        try:
+            doc = C.evaluate('\n'.join(parts))
+            ctx.held('Y1')
+        except C.CTIInvalid as e:
+            doc, bad = C.evaluate_chunks('\n'.join(parts))
+            for head, err in bad:
+                kind = head.split('(')[0]
+                cls = {'ideal_gas': 'IdealGas', 'stoichiometric_solid': 'StoichSolid',
+                       'interacting_interface': 'InteractingInterface'}.get(kind, kind)
+                ctx.fail('Y1', {'file': 'cti', 'rule': 'Y1', 'entity': 'phase', 'class': cls, 'exc': err.kind,
+                                'max_line_len': 'custom'}, directive=head, message=str(err)[:200], L=L)
+            continue
+        _cti_phases(spec, ctx, doc, written_ids, int_ids, bep_ids, extra=extra)
 
 
 def _ctml(spec, ctx, text, xml_path, convert):
@@ -1109,6 +1183,8 @@ def _cti_reactions(spec, M, ctx, doc):
         if rx['id'] is not None:
             ctx.check('Y3', w['id'] == rx['id'], dict(m, field='id', what='user_id_kept'), got=w['id'], want=rx['id'])
             ctx.cls('ids:user')
+            if spec.get('ids_mode') == 'blocks':
+                ctx.cls('ids:blocks')
         else:
             ctx.cls('ids:auto')
         try:
@@ -1194,8 +1270,8 @@ def _cti_beps(spec, ctx, doc, written_ids):
     return ids
 
 
-def _cti_phases(spec, ctx, doc, written_ids, int_ids, bep_ids):
-    base = {'file': 'cti', 'rule': 'Y4', 'entity': 'phase'}
+def _cti_phases(spec, ctx, doc, written_ids, int_ids, bep_ids, extra=None):
+    base = dict({'file': 'cti', 'rule': 'Y4', 'entity': 'phase'}, **(extra or {}))
     names = [p['name'] for p in doc.phases]
     want_names = [p['name'] for p in spec['phases']]
     ctx.cls('phases:%d' % len(spec['phases']))
@@ -1238,6 +1314,8 @@ def _cti_phases(spec, ctx, doc, written_ids, int_ids, bep_ids):
                 ctx.fail('Y4', dict(m, field=fld, exc='CTIInvalid'), message=str(e)[:200])
                 continue
             want = ex[fld] if p['type'] == 'InteractingInterface' else []
+            if len(w.get(fld, [])) >= 4:
+                ctx.cls('cti:long_range_list')
             ctx.check('Y4', got == want, dict(m, field=fld), got=got, want=want, written=w.get(fld))
         if p['type'] == 'InteractingInterface' and ex['beps'] is not None:
             ctx.check('Y4', sorted(w.get('beps', [])) == ex['beps'], dict(m, field='beps'), got=w.get('beps'),
@@ -1677,6 +1755,18 @@ def _value_ok(ctx, o, d, leaf, u, units_given):
         return ctx.check('Y6', isinstance(leaf, (int, float)) and not isinstance(leaf, bool) and float(leaf) == num,
                          dict(m, what='value'), got=repr(leaf), want=num)
 
+    if t == 'mixlist':
+        if not ctx.check('Y6', isinstance(leaf, list) and len(leaf) == len(v), dict(m, what='list_length'),
+                         got=repr(leaf)[:100], want=len(v)):
+            return
+        for k, (lf, e) in enumerate(zip(leaf, v)):
+            m['element_type'] = e['t']
+            if e['t'].startswith('obj:') or (e['t'] == 'str' and template is None):
+                ctx.check('Y6', lf == e['v'], dict(m, what='value'), got=repr(lf), want=e['v'], index=k)
+            else:
+                one(lf, e['v'], 'strlist_units' if e['t'] == 'str' else e['t'])
+        m.pop('element_type', None)
+        return
     if t.startswith('list:') or t in ('strlist_units',):
         et = t[5:] if t.startswith('list:') else 'str'
         if not ctx.check('Y6', isinstance(leaf, list) and len(leaf) == len(v), dict(m, what='list_length'),
@@ -1704,6 +1794,16 @@ def _run_reactor(spec, ctx):
     for o, d in spec['options'].items():
         t = d['t']
         ctx.cls('opt:' + ('str' if t in ('str', 'strlist', 'strlist_units') else t.replace('list:', '')))
+        if t == 'mixlist':
+            ets = {e['t'] for e in d['v']}
+            for et in ets:
+                ctx.cls('opt:' + ('str' if et == 'str' else et))
+            if 'str' in ets and ets - {'str'} and G.REACTOR_OPTIONS[o][1] is not None:
+                ctx.cls('opt:mixlist_numbers+unit_strings')
+            if any(et.startswith('np.') for et in ets) and ets & {'float', 'int'}:
+                ctx.cls('opt:mixlist_python+numpy')
+            if any(et.startswith('obj:') for et in ets):
+                ctx.cls('opt:mixlist_objects')
     want_ph = None
 
     def call(options, phases_mode):
@@ -1773,6 +1873,10 @@ def _run_reactor(spec, ctx):
     for mo, so in G.MULTI_SCALAR.items():
         if mo in options and so not in options and options[mo]['v']:
             dm = options[mo]
+            if dm['t'] == 'mixlist':
+                derived[G.REACTOR_OPTIONS[so][0]] = (so, {'t': dm['v'][0]['t'], 'v': dm['v'][0]['v']})
+                ctx.cls('opt:derived_scalar')
+                continue
             et = 'str' if dm['t'] == 'strlist_units' else dm['t'].replace('list:', '')
             derived[G.REACTOR_OPTIONS[so][0]] = (so, {'t': et, 'v': dm['v'][0]})
             ctx.cls('opt:derived_scalar')
@@ -1843,6 +1947,20 @@ def _classes(spec, ctx):
         if not r['is_adsorption'] and r['A'] is None and any(n in bulk for n, _ in r['reactants']):
             ctx.cls('rxn:bulk_reactant_computed_A')
         ctx.cls('ts:none' if r['ts'] is None else ('ts:bep' if 'bep' in r['ts'] else 'ts:species'))
+        # user-supplied rate parameters at sign / zero boundaries
+        if r['Ea'] is not None:
+            if r['Ea'] < 0:
+                ctx.cls('rate:Ea<0_adsorption' if r['is_adsorption'] else 'rate:Ea<0_surface')
+            if r['Ea'] == 0:
+                ctx.cls('rate:Ea=0')
+            if 0 < abs(r['Ea']) < 1e-6:
+                ctx.cls('rate:Ea_tiny')
+        if r['A'] == 0:
+            ctx.cls('rate:A=0')
+        if r['beta'] is not None and r['beta'] < 0:
+            ctx.cls('rate:beta<0')
+        if r['sticking_coeff'] is not None and r['sticking_coeff'] in (0.0, 1.0):
+            ctx.cls('rate:sticking=%d' % r['sticking_coeff'])
     if (spec['beps'] or spec['interactions']) and len(spec['phases']) >= 2:
         ctx.nontrivial()
 
